@@ -38,7 +38,7 @@ func vArgvFor(profile string) []string {
 		return vTemplateArgv(vParamInt("K"), vParamInt("Lp"), vAllShapes)
 	case "tmplmini":
 		// the well-formed core of the template: positional, `--`, short flag, valued option (separate and '=')
-		return vTemplateArgv(vParamInt("K"), vParamInt("Lp"), []int{shPos, shDD, shFlagShort, shValSep, shValEq})
+		return vTemplateArgv(vParamInt("K"), vParamInt("Lp"), []int{shPos, shDD, shFlagShort, shValSep, shValEq, shValLongEq, shHelp})
 	}
 	panic("unknown profile " + profile)
 }
@@ -71,7 +71,17 @@ func H_accept() {
 	shared := vParamInt("shared") == 1 // -o/-e and X/Y declared with one shared non-empty default slice
 	vResetShared()
 	argv := vArgvFor(vParamString("profile"))
-	vNoHelp(argv)
+	if check == "C09" {
+		// after the first `--` everything is data, help tokens included
+		for _, t := range argv {
+			if t == "--" {
+				break
+			}
+			vAssume(!vIsHelpTok(t))
+		}
+	} else {
+		vNoHelp(argv)
+	}
 	for _, t := range argv {
 		vAssume(!vFoldEq(t))
 	}
